@@ -34,10 +34,45 @@ async def sk_expunge_subsets_then_pack(hp, w, rnd, ctx):
     await w.observe(full=True)
 
 
+async def sk_rename_inbox_then_arrivals_in_the_new_mailbox(hp, w, rnd, ctx):
+    """RENAME INBOX re-homes the messages under fresh UIDs in the new mailbox;
+    what arrives there afterwards (APPEND, COPY, MOVE, delivery) gets UIDs above
+    those, and every UID goes on naming its message -- also after a restart, and
+    once more for a second RENAME INBOX into another name."""
+    # (a UIDNEXT that is too low is another property's witness; what is asked here is what the UIDs name afterwards)
+    w.foreign_violations = []
+    w.continue_past_foreign = ["C03"]
+    a, b = w.session(), w.session()
+    for i in range(4):
+        await w.op_append(a, "INBOX", date=rnd.choice([None, "02-Feb-2021 11:00:00 +0000"]))
+    await w.op_select(a, "INBOX")
+    await w.observe(full=True)
+    for new in ("saved", "saved2"):
+        await w.op_rename(a, "INBOX", new)
+        await w.observe(full=True)
+        await w.op_append(b, new)
+        await w.op_append(b, "INBOX")
+        await w.op_append(b, "INBOX")
+        await w.op_select(b, "INBOX")
+        await w.op_copy(b, [1], new)
+        await w.op_copy(b, [2], new, move=True)
+        w.deliver(new, 1)
+        await w.rig.advance(6)
+        await w.op_select(b, new)
+        await w.op_noop(b)
+        await w.op_probe_pairs(b)
+        await w.observe(full=True)
+        await w.restart()
+        a, b = w.session(), w.session()
+        await w.observe(full=True)
+        await w.op_select(a, "INBOX")
+        await w.op_append(b, "INBOX")
+
+
 class C03(HistProp):
     prop = PROP
     names = ["INBOX", "other"]
-    skeletons = [sk_expunge_subsets_then_pack, sk_rename_then_refill]
+    skeletons = [sk_expunge_subsets_then_pack, sk_rename_then_refill, sk_rename_inbox_then_arrivals_in_the_new_mailbox]
     weights = {"append": 10, "store_del": 10, "expunge": 9, "uid_expunge": 4, "move": 5, "copy": 4, "deliver": 5, "restart": 2, "rename": 1, "rename_inbox": 1,
                "advance": 5, "probe_pairs": 6, "uid_fetch": 4, "fetch": 4, "create": 1}
     opts = {"observe_full": True, "create_names": ["other", "tmp"], "rename_targets": ["moved", "saved"]}
